@@ -228,6 +228,19 @@ def known_findings(rep):
             rep.known_finding(k["id"], k["what_fails"] + ("" if still else " (witness no longer fails)"))
 
 
+def exhaustive_strings(rng, tier):
+    """every string of length <= 3 (thorough: <= 4) over {$ " { } : a}, doubled, as a value and as a key"""
+    import itertools
+    sym = ["$", "\"", "{", "}", ":", "a"]
+    out = []
+    for n in range(1, 5 if tier == "thorough" else 4):
+        for tup in itertools.product(sym, repeat=n):
+            w = "".join(tup)
+            out.append(build_doubled({"v": w, "l": [w]}))
+            out.append(build_doubled({w: 1}))
+    return out
+
+
 def run(rep):
     known_findings(rep)
     del KF_HITS[:]
@@ -236,7 +249,7 @@ def run(rep):
                  "name/form; (a) every $ doubled, expected output = original minus nulls; (b) directive-free plain data "
                  "($FOO, ${X}, $(cmd)); (c) doubled tree layered over a $-free parent; (d) doubled tree layered over plain data "
                  "that itself contains single dollars, judged by an independent directive-free merge; non-trivial = contains a $ or is layered",
-                 oracle=oracle)
+                 oracle=oracle, extra_gens=(exhaustive_strings,))
     from common import load_known
     for k in load_known().get("open", []):
         if k.get("property") == PID and k.get("signature") == "c06.escape_collision_across_layers":
